@@ -13,11 +13,26 @@ def main(tier: str, seed: int) -> int:
     run = Run(PROP, tier, seed)
     np = run.pick(3, 6)
     shards = []
-    ov = {"skipuntil": True, "tags": True, "trivia_explicit": True, "trivia_refs": True, "ci_nonascii": True}
-    shards += E.random_shards(PROP, run, JUDGES, profile="full", count=run.pick(40, 450), cap=run.pick(100, 250), maxlen=4, extra={"pipelines": np, "extra_alpha": " #"})
+    ov = {"skipuntil": True, "tags": True, "trivia_explicit": True, "trivia_refs": True, "ci_nonascii": True, "zero_counts": True, "skipuntil_ci": True}
+    shards += E.random_shards(PROP, run, JUDGES, profile="full", count=run.pick(40, 450), cap=run.pick(100, 250), maxlen=4, extra={"pipelines": np, "extra_alpha": " #", "profile_overrides": {"zero_counts": True, "skipuntil_ci": True, "zero_width_stack_reps": True}})
     shards += E.random_shards(PROP, run, JUDGES, profile="core", count=run.pick(30, 350), cap=run.pick(100, 250), maxlen=4, extra={"pipelines": np, "profile_overrides": ov})
     shards += E.random_shards(PROP, run, JUDGES, profile="trivia", count=run.pick(30, 350), cap=run.pick(100, 250), maxlen=4, extra={"pipelines": np, "profile_overrides": ov, "extra_alpha": " #"})
     shards += E.matrix_shards(PROP, run, JUDGES, sample=run.pick(1300, 0), cap=run.pick(120, 300), extra={"pipelines": np})
+    # optimizer-target family: every shape the passes pattern-match on x ordered operand pairs, under ordered
+    # selections of the passes (all 325 on the thorough tier), so each pass also meets every other pass's output
+    import random as _random
+
+    from pv.gen import grammars as G
+
+    idx = list(range(G.opt_target_size()))
+    _random.Random(E.seed_int(PROP, run.seed, "opt")).shuffle(idx)
+    if run.quick:
+        idx = idx[:640]
+    for j in range(16):
+        shards.append({
+            "prop": PROP, "judges": JUDGES, "modes": ["I", "GI", "O", "GO"], "source": "opttargets", "indices": idx[j::16], "seed": E.seed_int(PROP, run.seed, "ot", j),
+            "cap": run.pick(40, 80), "maxlen": 3, "pipelines": run.pick(24, 60), "pipeline_mode": "ordered", "sample_at": 10**9,
+        })
     E.execute(run, shards)
     return run.finish(
         rule=(
@@ -25,7 +40,11 @@ def main(tier: str, seed: int) -> int:
             "rules with and without trivia, choices of literals/ranges/CI literals with shared prefixes, silent-rule references incl. tagged and "
             "recursive ones) and the construct matrix; per grammar the default pipeline plus seeded configurations (each single pass, subsets, "
             "permutations, repetitions of DEFAULT_OPTIMIZER_PASSES, fresh Optimizer objects), interpreted and generated, are compared with the "
-            "optimizer=None result computed BEFORE any optimizer ran in the worker process. distinct_nontrivial = distinct (grammar, input) cases."
+            "optimizer=None result computed BEFORE any optimizer ran in the worker process. Plus the optimizer-target family (12 shapes: choice, "
+            "choice under * + ? {n} and a tag, (!C ~ ANY)* with/without terminator, through silent and normal rule references, !C ~ ANY; C = every "
+            "ordered pair of 11 literal-like operands incl. CI literals, ranges, built-ins, silent/normal references and a nested choice; 3 rule "
+            "modifiers; with/without WHITESPACE) under seeded ordered selections of the passes (observed_sets lists which). "
+            "distinct_nontrivial = distinct (grammar, input) cases."
         ),
         assumptions=[
             "relative property: outcome and tree are compared, failure positions are not (the statement does not ask)",
@@ -35,6 +54,7 @@ def main(tier: str, seed: int) -> int:
         floors={
             "c02.comparisons": 20000, "c02.pipelines_built": 500, "c02.default_rewrites_fired.unroll": 100, "c02.default_rewrites_fired.squash_choice": 100,
             "c02.default_rewrites_fired.inline built-in": 100, "c02.default_rewrites_fired.inline silent": 50, "c02.default_rewrites_fired.skip": 5,
+            "c02.pipeline_kind.multi": 1000,
         },
     )
 
